@@ -158,6 +158,11 @@ NEEDS = {
     "C21t-3": ("C21", "third round: implicit coercion target a strict ancestor of the source type, recursion depth >= 2, a depth-1 vertex of the ancestor type but not the source type (resolve_neighbors names the source type)"),
     "C22-1": ("C22", "a lower-bound count filter (>= / >) together with a != / not_one_of filter on the same fold count, both with variables, nothing observing the fold, fold larger than the bound"),
     "C22-2": ("C22", "an outer fold with only lower-bound count filters whose only observed content is a nested fold's count @output, outer fold larger than the bound"),
+    "C15u-1": ("C15", "fourth round (state): a query with at least one $variable recorded a SECOND time through the tracer that AdapterTap::finish() left behind; the second trace has no arguments and cannot be replayed"),
+    "C07u-2": ("C07", "fourth round: one_of / not_one_of with a list-typed left operand (list of lists on the right), or contains / not_contains over a list of lists, where a member equals the probe numerically but holds an integer in the other representation (Int64 vs Uint64)"),
+    "C19u-2": ("C19", "fourth round (position): an edge with >= 2 parameters where a parameter WITHOUT a default precedes one whose default does not fit its type (`e(limit: Int, name: String = 123)`)"),
+    "C20u-1": ("C20", "fourth round (state): the `Schema.entrypoint` edge resolved for two or more contexts in one query (`Schema { vertex_type {..} entrypoint {..} }` with >= 2 vertex types): only the first context sees the entry points"),
+    "C16u-1": ("C16", "fourth round (sequence, two sites): a Type is rendered or serialized, a type of other nullability is derived from it with with_nullability (which clones the cached text), and the derived type is rendered or serialized (IRQuery serialized, IndexedQuery rebuilt from it, then serialized)"),
 }
 
 
